@@ -12,7 +12,12 @@ impl<'a> VecOperator<'a> for CombineNullMaps {
         let lhs = scratchpad.get_null_map(self.lhs);
         let rhs = scratchpad.get_null_map(self.rhs);
         let mut output = scratchpad.get_mut(self.output);
-        for (out, (l, r)) in output.iter_mut().zip(lhs.iter().zip(rhs.iter())) {
+        // A null map may be shorter than the data it belongs to (trailing NULLs are not materialized, unset bits are
+        // implied). Every output byte is rewritten: the buffer is reused for each chunk when the stage is streamed, and
+        // bytes that were merely skipped would keep the previous chunk's bits.
+        for (i, out) in output.iter_mut().enumerate() {
+            let l = lhs.get(i).copied().unwrap_or(0);
+            let r = rhs.get(i).copied().unwrap_or(0);
             *out = l & r;
         }
         Ok(())
